@@ -85,6 +85,28 @@ CLAIMS["C34"] = dict(
     note="Vec is a fixed-capacity contiguous model (<=4 elements); lists of <=3 ids, bitmaps of <=32 bits.",
 )
 
+CLAIMS["C35"] = dict(
+    engine="kani-transplant",
+    technique="bounded symbolic execution of the hamming and argmin kernels of lance-linalg with Kani+CBMC (all byte vectors up to 72 bytes; all f32 bit patterns in arrays up to 4)",
+    text=("Decides that hamming() (64-byte chunked path) equals hamming_scalar() and the bit-count definition for every pair of byte vectors of the lengths "
+          "0, 1, 63, 64, 65, 127, 128, 129 (tail only / whole chunks / chunks + tail), and that argmin / argmin_value(_float/_opt/_with_bias) / argmax return a first minimal (maximal) element for every f32 bit "
+          "pattern including NaN, signed zeros and infinities. The floating-point accumulation kernels (l2, cosine, dot, norms, SIMD and f16 paths) "
+          "are NOT covered: 'equal within tolerance' of re-ordered float sums is out of reach for CBMC; the claim is restricted to the kernels named."),
+    note="Only comparisons and one float addition per element are involved; no float accumulation.",
+)
+
+CLAIMS["C30"] = dict(
+    engine="kani-transplant",
+    technique="bounded symbolic execution of the range planning and reassembly code of FileScheduler::submit_request (lifted into a synchronous function) with Kani+CBMC over symbolic range lists, block sizes and request-size limits",
+    text=("Decides the data half of the property: for every list of <=1 (quick) / <=2 and <=3 (thorough) requested byte ranges -- empty, overlapping, "
+          "contained, adjacent or far apart, sorted by start as callers guarantee -- every block size and every maximum request size, the coalesce / split "
+          "/ un-coalesce / un-split code returns exactly one buffer per requested range, in order, holding exactly that range of the file. The awaited reads "
+          "are replaced by a fetch that returns each planned range of an abstract file. Two real defects (empty ranges; overlap after a split read) were found "
+          "this way and fixed. The liveness half (every request completes under any completion order, back-pressure, cancellation) is concurrency over tokio "
+          "and is NOT claimed."),
+    note="Offsets < 2^16 (quick, one range), 2^8/2^16 (two ranges) and 2^32 (three ranges) in the thorough tier; Vec and Bytes are models.",
+)
+
 _IO = "truth lives in async object-store/tokio orchestration (crash points, interleavings, listings); Kani/CBMC has no model of tokio or object_store and no pure kernel implies the statement"
 NOT_APPLICABLE.update({
     "C01": "commit atomicity over crash points: " + _IO,
@@ -113,5 +135,5 @@ NOT_APPLICABLE.update({
     "C42": "relocatability is a statement about every path written by every writer being relative; decided by I/O",
 })
 _PLANNED = "planned in DESIGN.md §5 but its check is not built yet, so it is not claimed"
-for _p in ["C09", "C17", "C19", "C26", "C27", "C29", "C30", "C32", "C33", "C35", "C36", "C41", "C43"]:
+for _p in ["C09", "C17", "C19", "C26", "C27", "C29", "C32", "C33", "C36", "C41", "C43"]:
     NOT_APPLICABLE.setdefault(_p, _PLANNED)
